@@ -107,10 +107,14 @@ def execute_split(sc: dict, segments: list) -> dict:
                         pass
             counts.append(perf["done"] - before)
         segments = []
-    for seg in segments:
+    for iseg, seg in enumerate(segments):
         before = perf["done"]
         drive(mc, seg["entry"], seg["n"])
         counts.append(perf["done"] - before)
+        if iseg == 0 and sc.get("late_logger"):
+            # after the first call (possibly a zero-length one) the user gives the simulation a log file; whatever
+            # that does to the new logger, nobody else's schedule may change
+            mc.default_logger = disk.open("late_log", "a")
     if int(mc.step_count) != perf["start"] + perf["done"]:
         perf["counter_mismatch"].append((int(mc.step_count), perf["start"] + perf["done"]))
     out = {"calls": {i: list(s) for i, s in sinks.items()}, "counts": counts, "step_count": int(mc.step_count),
@@ -120,7 +124,7 @@ def execute_split(sc: dict, segments: list) -> dict:
     if hasattr(mc, "default_logger") and mc.default_logger is not None:
         out["header"] = mc.default_logger.create_header()
     mc.close()
-    out["files"] = {n: f.durable for n, f in disk.files.items()}
+    out["files"] = {n: f.durable for n, f in disk.files.items() if n != "late_log"}
     return out
 
 
@@ -186,11 +190,14 @@ class C15(HistoryCampaign):
                 s["entry"] = rnd.choice(["irun", "srun"])
             sc["precreate"] = True
         sc["recorders"] = [rnd.choice(INTERVALS) for _ in range(rnd.randint(1, 4))]
+        late = rnd.random() < 0.3 and not sc.get("precreate")
         files = {"logging_interval": rnd.choice([1, 1, 2, 3, 5, -1, -2, -4]), "logging_mode": rnd.choice(["a", "w"])}
         for role in ("logfile", "trajectory", "restart_file"):
             if rnd.random() < 0.6:
                 files[role] = {"name": role, "as": rnd.choice(["object", "object", "observer"]), "mode": files["logging_mode"]}
         sc["files"] = files
+        if late and "logfile" not in files:
+            sc["late_logger"] = True  # (only where no log file was configured: replacing one would end it, by design)
         return sc
 
     def sample_view(self, sc):
